@@ -538,3 +538,7 @@ mod tests {
         check_viewer(&mut viewer, (5..6).into(), &[5]);
     }
 }
+
+#[cfg(all(aws_s2n_quic_verif, any(test, all(kani, feature = "testing"))))]
+#[path = "/verif/harness/transport/ds_buffer.rs"]
+mod verif;
